@@ -21,8 +21,28 @@ def precedence_harness():
     h.need_globals = [gm, go]
     return h
 
+def operator_node_harness(kind):
+    from props.engine_family import FAM as ENG, DE
+    nm, cls = {1: ('Binary', 'Binary_Operator_AST_Node'), 2: ('Fold_Right', 'Fold_Right_Binary_Operator_AST_Node'), 3: ('Prefix', 'Prefix_AST_Node')}[kind]
+    rx = r'chaiscript::eval::' + cls + r'<.*>::eval_internal\(chaiscript::detail::Dispatch_State const&\) const$'
+    stubs = [r'AST_Node_Impl<.*>::eval\(', r'chaiscript::Boxed_Number::do_oper', DE + r'call_function\(', r'Function_Push_Pop::', r'chaiscript::detail::Dispatch_State::conversions']
+    cuts = [r'eval_error::', r'Boxed_Value::~Boxed_Value', r'dispatch_error::', r'std::operator\+<char', r'basic_string<char, std::char_traits<char>, std::allocator<char> >::(basic_string|~basic_string)']
+    TIS = {'TI_ARITH_ERROR': '_ZTIN10chaiscript9exception16arithmetic_errorE', 'TI_DISPATCH_ERROR': '_ZTIN10chaiscript9exception14dispatch_errorE'}
+    d = {'KIND': kind, 'NODE_EVAL': core.csym(ENG, rx), 'NODE_EVAL_CHILD': core.csym(ENG, r'AST_Node_Impl<.*>::eval\(chaiscript::detail::Dispatch_State const&\) const$'),
+         'DO_OPER2': core.csym(ENG, r'^chaiscript::Boxed_Number::do_oper\(chaiscript::Operators::Opers, chaiscript::Boxed_Value const&, chaiscript::Boxed_Value const&\)$'),
+         'DO_OPER1': core.csym(ENG, r'^chaiscript::Boxed_Number::do_oper\(chaiscript::Operators::Opers, chaiscript::Boxed_Value const&\)$'),
+         'CALL_FUNCTION': core.csym(ENG, DE + r'call_function\(std::basic_string_view'), 'FPP_CTOR': core.csym(ENG, r'Function_Push_Pop::Function_Push_Pop\(chaiscript::detail::Dispatch_State const&\)$'),
+         'FPP_DTOR': core.csym(ENG, r'Function_Push_Pop::~Function_Push_Pop\(\)$'), 'FPP_SAVE': core.csym(ENG, r'Function_Push_Pop::save_params\(chaiscript::Function_Params const&\)$'),
+         'CONVERSIONS': core.csym(ENG, r'^chaiscript::detail::Dispatch_State::conversions\(\) const$'), 'VERIF_CALL_V1(f,a)': '__VERIF_v1_hook(f,a)'}
+    for k, v in TIS.items(): d[k] = '((char*)&g_%s)' % v
+    wit = ('witness: operand throws', 'witness: numeric', 'witness: arithmetic_error', 'witness: numeric failure', 'witness: dispatched', 'witness: dispatch failure', 'witness: callee exception') + (('witness: const refused',) if kind == 3 else ())
+    h = Harness('S5.' + nm, ENG, [rx], 'c03_operator_nodes.c', stubs=stubs, cuts=cuts, shapes=[dict(d, _tag='all', _witness=wit)], opts=['--unwind', '6', '--unwindset', 'main.0:6'], timeout=600, mem_gb=8,
+                inputs=['behav', 'arith', 'cst', 'oper', 'do_beh', 'call_beh'], note='operator code of the node, operand flags (arithmetic, const) and outcomes of operands / number operator / dispatched function: symbolic')
+    h.need_globals = ['_ZTIN10chaiscript9exception10eval_errorE', '_ZTIN10chaiscript11Boxed_ValueE'] + list(TIS.values())
+    return h
+
 def harnesses(tier):
-    hs = [to_operator_harness(), precedence_harness()]
+    hs = [to_operator_harness(), precedence_harness()] + [operator_node_harness(k) for k in (1, 2, 3)]
     for k in C09.KINDS:
         h = C09.node_harness(k); h.name = 'S4.' + h.name[2:]; hs.append(h)
     e = C07.equation_harness(); e.name = 'S4.Equation'; hs.append(e)
